@@ -164,7 +164,33 @@ def Expanded.parseHour (year : Int) (month day : Nat) (offset : Nat) (data : Byt
               else .ok ⟨year, month, day, result⟩
             else .err
 
-/-- date.rs:156-212: everything after the year (`data` starts at the first '.'). -/
+/-- date.rs:177-212: the day component, entered with `offset` pointing at the expected '.'
+after the month; continues with the hour when bytes are left. -/
+def Expanded.parseDay (year : Int) (month : Nat) (offset : Nat) (data : Bytes) : Out Expanded :=
+  match data[offset]? with
+  | none => .err
+  | some c1 =>
+    if c1 != 46 then .err
+    else
+      match data[offset + 1]? with
+      | none => .err
+      | some n3 =>
+        if !isDigit n3 then .err
+        else
+          let day1 := digitVal n3
+          match data[offset + 2]? with
+          | none => .ok ⟨year, month, day1, 0⟩
+          | some n4 =>
+            if n4 == 46 then Expanded.parseHour year month day1 (offset + 2) data
+            else if isDigit n4 then
+              let result := day1 * 10 + digitVal n4
+              if data.length != offset + 3 then
+                Expanded.parseHour year month result (offset + 3) data
+              else .ok ⟨year, month, result, 0⟩
+            else .err
+
+/-- date.rs:156-175: everything after the year (`data` starts at the first '.'): the month,
+then `parseDay`. -/
 def Expanded.parseRest (year : Int) (data : Bytes) : Out Expanded :=
   match data[0]? with
   | none => .err
@@ -186,28 +212,7 @@ def Expanded.parseRest (year : Int) (data : Bytes) : Out Expanded :=
               else none
             match mo with
             | none => .err
-            | some (month, offset) =>
-              match data[offset]? with
-              | none => .err
-              | some c1 =>
-                if c1 != 46 then .err
-                else
-                  match data[offset + 1]? with
-                  | none => .err
-                  | some n3 =>
-                    if !isDigit n3 then .err
-                    else
-                      let day1 := digitVal n3
-                      match data[offset + 2]? with
-                      | none => .ok ⟨year, month, day1, 0⟩
-                      | some n4 =>
-                        if n4 == 46 then Expanded.parseHour year month day1 (offset + 2) data
-                        else if isDigit n4 then
-                          let result := day1 * 10 + digitVal n4
-                          if data.length != offset + 3 then
-                            Expanded.parseHour year month result (offset + 3) data
-                          else .ok ⟨year, month, result, 0⟩
-                        else .err
+            | some (month, offset) => Expanded.parseDay year month offset data
 
 /-- date.rs:150 `ExpandedRawDate::_parse`. -/
 def Expanded.parse (s : Bytes) : Out Expanded :=
